@@ -212,11 +212,64 @@ def gen_ge(rng, kind):
     return " ".join(toks)
 
 
+def trap_model(rng, S, A, dy, j=2):
+    """Sign-structured MDP (needs S >= 2): 'free' states whose own rewards are all zero / slightly positive but
+    every action of which leads mostly into 'costly' states (all rewards negative, mostly staying costly), so
+    the optimal value of a free state is negative although it never loses reward itself; optionally also
+    'rich' states (all rewards positive).  Returns (t, r) in the dyadic (numerators over 2^j) or general form."""
+    states = list(range(S)); rng.shuffle(states)
+    ncost = rng.randint(1, S - 1)
+    costly = set(states[:ncost]); rest = states[ncost:]
+    rich = set()
+    if len(rest) > 1 and rng.random() < 0.3:
+        rich = {rest[-1]}
+    free = [s for s in rest if s not in rich]
+    D = 1 << j
+    t = [[None] * A for _ in range(S)]
+    r = [[None] * A for _ in range(S)]
+    cl = sorted(costly)
+    for s in range(S):
+        for a in range(A):
+            if s in costly:
+                # stays costly with probability >= 3/4
+                inside = rng.choice([D, D, D - D // 4]) if dy else rng.choice([1.0, 1.0, rng.uniform(0.75, 1.0)])
+            elif s in rich:
+                inside = 0
+            else:
+                inside = rng.choice([D, D - D // 4, D // 2]) if dy else rng.uniform(0.5, 1.0)
+            row = [0] * S if dy else [0.0] * S
+            if dy:
+                for k, x in enumerate(composition(rng, inside, len(cl))): row[cl[k]] += x
+                others = [x for x in range(S) if x not in costly] or cl
+                for k, x in enumerate(composition(rng, D - inside, len(others))): row[others[k]] += x
+            else:
+                w = [rng.random() + 0.05 for _ in cl]; tw = sum(w)
+                for k, x in enumerate(w): row[cl[k]] += inside * x / tw
+                others = [x for x in range(S) if x not in costly] or cl
+                w = [rng.random() + 0.05 for _ in others]; tw = sum(w)
+                for k, x in enumerate(w): row[others[k]] += (1.0 - inside) * x / tw
+                tot = sum(row); row = [x / tot for x in row]
+                if any(0.0 < x < 1e-5 for x in row):
+                    row = [0.0] * S; row[cl[0]] = 1.0
+            t[s][a] = row
+            if s in costly:
+                x = -rng.randint(1, 8) if dy else -rng.uniform(1.0, 10.0)
+            elif s in rich:
+                x = rng.randint(1, 8) if dy else rng.uniform(1.0, 10.0)
+            else:
+                x = rng.choice([0, 0, 1]) if dy else rng.choice([0.0, 0.0, rng.uniform(0.0, 0.2)])
+            r[s][a] = [x] * S
+    return t, r
+
+
 def gen_solve(rng):
     S = rng.choice([1, 2, 3, 4, 5, 6]); A = rng.choice([1, 2, 3, 4])
     gamma = rng.choice([0.5, 0.75, 0.9, 0.95])
     tol = rng.choice([1e-3, 1e-4, 1e-5])
-    t = ge_rows(rng, S, A); r = ge_rewards(rng, S, A, allow_scale=False)
+    if S >= 2 and rng.random() < 0.4:
+        t, r = trap_model(rng, S, A, False)
+    else:
+        t = ge_rows(rng, S, A); r = ge_rewards(rng, S, A, allow_scale=False)
     toks = ["solve", "ge", str(S), str(A), hx(gamma), hx(tol), "100000"]
     for s in range(S):
         for a in range(A): toks += [hx(x) for x in t[s][a]]
@@ -291,6 +344,8 @@ def gen_seq(rng):
     def shape():
         return (rng.choice([1, 2, 2, 3]), rng.choice([1, 2, 2]) if dy else rng.choice([1, 2, 3]))
     def fresh(S, A, j):
+        if S >= 2 and rng.random() < 0.35:
+            return trap_model(rng, S, A, dy, j)
         if dy:
             t = dy_rows(rng, S, A, j); _, r = dy_rewards(rng, S, A)
         else:
